@@ -16,15 +16,21 @@ TRUSTED = ["sqlite MIN/MAX aggregates, JOIN, DISTINCT, ORDER BY on text (modelle
 LEANCHECKER_MODULES = ["GffProofs.Props.C03"]
 
 
-def oracle(recs, db, disG, disT, sub, res, lines, cfgdesc, gkey="gene_id", tkey="transcript_id"):
-    inp = {"lines": lines, "config": cfgdesc}
+def mk_case(lines, recs, cfg):
+    """a self-contained case: the GTF lines in file order, the generator's record of every line, the configuration"""
+    return {"scenario": "import", "input": list(lines), "records": list(recs), "parallel": ["records"],
+            "config": cfg.to_json()}
+
+
+def oracle(recs, db, cfg, res, case):
+    disG, disT, sub, gkey, tkey = cfg.disG, cfg.disT, cfg.sub, cfg.gkey, cfg.tkey
     rows = dbside.rows_of(db)
     byid = {}
     for x in rows:
         byid.setdefault(str(x["id"]), []).append(x)
     dup = [k for k, v in byid.items() if len(v) > 1]
     if dup:
-        res.oracle_failures.append(("several features stored under one id", dict(inp, ids=dup)))
+        common.fail(res, case, "several_features_one_id", "several features stored under one id", ids=dup)
     rels = set(dbside.rels_of(db))
     tx = {}
     gx = {}
@@ -42,48 +48,50 @@ def oracle(recs, db, disG, disT, sub, res, lines, cfgdesc, gkey="gene_id", tkey=
         if t in explicit_t:
             e = explicit_t[t]
             if len(got) != 1 or got[0]["source"] == "gffutils_derived" or (got[0]["start"], got[0]["end"]) != (e["start"], e["end"]):
-                res.oracle_failures.append(("an explicit transcript line is not the single feature under its id",
-                                            dict(inp, id=t, stored=[(g["featuretype"], g["start"], g["end"], g["source"]) for g in got])))
+                common.fail(res, case, "explicit_transcript_not_single", "an explicit transcript line is not the single feature under its id",
+                            id=t, observed=[(g["featuretype"], g["start"], g["end"], g["source"]) for g in got],
+                            expected=("transcript", e["start"], e["end"], "src"))
             continue
         if disT:
             if got:
-                res.oracle_failures.append(("disable_infer_transcripts did not suppress a derived transcript", dict(inp, id=t)))
+                common.fail(res, case, "disable_infer_transcripts_ignored", "disable_infer_transcripts did not suppress a derived transcript", id=t)
             continue
         want = (min(e["start"] for e in exs), max(e["end"] for e in exs), exs[0]["seqid"], exs[0]["strand"])
         if len(got) != 1 or got[0]["featuretype"] != "transcript" or \
                 (got[0]["start"], got[0]["end"], got[0]["seqid"], got[0]["strand"]) != want:
-            res.oracle_failures.append(("derived transcript does not span min start .. max end of its exons on their "
-                                        "seqid/strand", dict(inp, id=t, expected=want,
-                                                             stored=[(g["featuretype"], g["start"], g["end"], g["seqid"], g["strand"]) for g in got])))
+            common.fail(res, case, "derived_transcript_extent", "derived transcript does not span min start .. max end of its exons on their "
+                        "seqid/strand", id=t, expected=want,
+                        observed=[(g["featuretype"], g["start"], g["end"], g["seqid"], g["strand"]) for g in got])
         else:
             try:
                 f = db[t]
                 assert f.featuretype == "transcript"
             except Exception as ex:
-                res.oracle_failures.append(("derived transcript not retrievable by its id: %r" % ex, dict(inp, id=t)))
+                common.fail(res, case, "derived_transcript_not_retrievable", "derived transcript not retrievable by its id: %r" % ex, id=t)
             ga = got[0]["attributes"]
             if ga.get(tkey) != [t] or ga.get(gkey) != [gene_of[t]]:
-                res.oracle_failures.append(("the derived transcript stored under %r does not carry that transcript's ids" % t,
-                                            dict(inp, id=t, attributes=ga)))
+                common.fail(res, case, "derived_transcript_ids", "the derived transcript stored under %r does not carry that transcript's ids" % t,
+                            id=t, observed=ga, expected={tkey: [t], gkey: [gene_of[t]]})
     for g, exs in gx.items():
         got = byid.get(g, [])
         if g in explicit_g:
             e = explicit_g[g]
             if len(got) != 1 or got[0]["source"] == "gffutils_derived" or (got[0]["start"], got[0]["end"]) != (e["start"], e["end"]):
-                res.oracle_failures.append(("an explicit gene line is not the single feature under its id",
-                                            dict(inp, id=g, stored=[(x["featuretype"], x["start"], x["end"], x["source"]) for x in got])))
+                common.fail(res, case, "explicit_gene_not_single", "an explicit gene line is not the single feature under its id",
+                            id=g, observed=[(x["featuretype"], x["start"], x["end"], x["source"]) for x in got],
+                            expected=("gene", e["start"], e["end"], "src"))
             continue
         if disG:
             if got:
-                res.oracle_failures.append(("disable_infer_genes did not suppress a derived gene", dict(inp, id=g)))
+                common.fail(res, case, "disable_infer_genes_ignored", "disable_infer_genes did not suppress a derived gene", id=g)
             continue
         if not any(e["transcript"] is not None for e in exs):
             continue
         want = (min(e["start"] for e in exs), max(e["end"] for e in exs), exs[0]["seqid"], exs[0]["strand"])
         if len(got) != 1 or got[0]["featuretype"] != "gene" or \
                 (got[0]["start"], got[0]["end"], got[0]["seqid"], got[0]["strand"]) != want:
-            res.oracle_failures.append(("derived gene does not span all exons of the gene", dict(
-                inp, id=g, expected=want, stored=[(x["featuretype"], x["start"], x["end"], x["seqid"], x["strand"]) for x in got])))
+            common.fail(res, case, "derived_gene_extent", "derived gene does not span all exons of the gene", id=g, expected=want,
+                        observed=[(x["featuretype"], x["start"], x["end"], x["seqid"], x["strand"]) for x in got])
     # nothing derived beyond these
     for x in rows:
         if x["source"] == "gffutils_derived":
@@ -91,8 +99,8 @@ def oracle(recs, db, disG, disT, sub, res, lines, cfgdesc, gkey="gene_id", tkey=
             ok = (x["featuretype"] == "transcript" and k in tx and not disT) or \
                  (x["featuretype"] == "gene" and k in gx and not disG)
             if not ok:
-                res.oracle_failures.append(("a derived feature exists that no exon line warrants (or a flag forbids)",
-                                            dict(inp, id=k, featuretype=x["featuretype"])))
+                common.fail(res, case, "unwarranted_derived_feature", "a derived feature exists that no exon line warrants (or a flag forbids)",
+                            id=k, featuretype=x["featuretype"])
     # relations: every other line is level-1 child of its transcript, level-2 child of its gene; transcript -> gene
     want = set()
     counters = {}
@@ -109,12 +117,32 @@ def oracle(recs, db, disG, disT, sub, res, lines, cfgdesc, gkey="gene_id", tkey=
             want.add((x["gene"], x["transcript"], 1))
         want.add((x["gene"], xid, 2))
     if rels != want:
-        res.oracle_failures.append(("the relation set is not exactly {line->transcript (1), line->gene (2), "
-                                    "transcript->gene (1)}", dict(inp, extra=sorted(rels - want), missing=sorted(want - rels))))
+        common.fail(res, case, "relation_set", "the relation set is not exactly {line->transcript (1), line->gene (2), "
+                    "transcript->gene (1)}", extra=sorted(rels - want), missing=sorted(want - rels))
     for p, c, l in rels:
         if p == c:
-            res.oracle_failures.append(("a feature is its own parent/child", dict(inp, id=p, level=l)))
+            common.fail(res, case, "own_parent", "a feature is its own parent/child", id=p, level=l)
             break
+
+
+def build(ctx, case):
+    """import the lines of the case with its configuration; returns (db, reply, cfg)"""
+    cfg = dbside.Cfg.from_json(case["config"])
+    path = dbside.write_lines(os.path.join(ctx.scratch, "c03.gtf"), case["input"])
+    db, rep = dbside.py_create(path, cfg)
+    return db, rep, cfg
+
+
+def judge(ctx, case):
+    res = common.Result("C03")
+    if len(case["input"]) != len(case["records"]):
+        return res
+    db, rep, cfg = build(ctx, case)
+    if db is None:
+        common.fail(res, case, "create_db_raised", "create_db raised on a GTF file: " + rep, error=rep, observed=rep, expected="ok")
+        return res
+    oracle(case["records"], db, cfg, res, case)
+    return res
 
 
 def run(ctx):
@@ -160,12 +188,13 @@ def run(ctx):
         res.count("explicit" if explicit else "no_explicit")
         res.count("disG%d_disT%d" % (disG, disT))
         cmds.append(dbside.cmd_create(lines, cfg)); exp.append(rep); tags.append(("create_db (GTF)", repr((lines, cfg.describe()))))
+        case = mk_case(lines, recs, cfg)
         if db is None:
-            res.oracle_failures.append(("create_db raised on a GTF file: " + rep, {"lines": lines, "config": cfg.describe()}))
+            common.fail(res, case, "create_db_raised", "create_db raised on a GTF file: " + rep, error=rep, observed=rep, expected="ok")
             continue
         if any(x["ftype"] == sub and x["transcript"] for x in recs):
             res.nontriv((tuple(lines), disG, disT))
-        oracle(recs, db, disG, disT, sub, res, lines, cfg.describe(), gkey, tkey)
+        oracle(recs, db, cfg, res, case)
         cmds.append("dump"); exp.append(dbside.dump(db)); tags.append(("tables after GTF import", repr((lines, cfg.describe()))))
         if len(res.samples) < 2:
             res.sample({"lines": lines, "config": cfg.describe()})
@@ -190,10 +219,9 @@ def run(ctx):
     res.assumptions = ["a transcript_id belongs to one gene_id", "subfeature lines have integer coordinates",
                        "the exons of a transcript agree on seqid and strand",
                        "the order in which derived features are inserted (ties in ORDER BY gene id) is not compared"]
+    common.shrink_first_failure(res, lambda case: judge(ctx, case))
     return res
 
 
 def replay(ctx, payload):
-    res = common.Result("C03")
-    print("replay:", payload.get("what"), payload.get("input"))
-    return res
+    return common.replay_failure("C03", payload, lambda case: judge(ctx, case))
